@@ -46,7 +46,10 @@ def gen_cases(tier, seed):
     # library distributions (log_prob of the float32 object next to its .double() twin; narrow mixture components included:
     # densities evaluated through exp() of a large negative number underflow in float32 long before their logarithm does)
     for i in range(16 if tier == "quick" else 600):
-        dc = dzoo.sample_dist_cfg(rng, [["mademog", "mademog", "cond_diag", "diag"][i % 4]])
+        dc = dzoo.sample_dist_cfg(rng, [["mademog", "mademog", "cond_diag", "diag", "bernoulli"][i % 5]])
+        if dc["dist"] == "bernoulli":
+            shape = dc["shape"]
+            dc = {"dist": "bernoulli", "shape": shape, "encoder": False, "ctx": int(np.prod(shape)), "ctx_scale": [4.0, 8.0, 12.0][i % 3]}
         if dc["dist"] == "mademog":
             dc["narrow"] = i % 8 < 4
             dc["bn"] = False
@@ -55,6 +58,10 @@ def gen_cases(tier, seed):
     for i, fam in enumerate(["lu", "qr", "svd", "naive", "conv"] * (1 if tier == "quick" else 24)):
         cases.append({"kind": "wide_linear", "family": fam, "features": [256, 192, 300, 512][(i // 5 + i) % 4],
                       "seed": env.subseed(seed, "c19w", i), "world": "f32", "cost": 4})
+    # NaiveLinear with a prescribed moderate condition number: float32 error must scale with cond, not cond^2
+    for i in range(4 if tier == "quick" else 60):
+        cases.append({"kind": "naive_cond", "features": [4, 8, 16, 6][i % 4], "cond": [1e2, 1e3, 3e2, 1e3][i % 4],
+                      "cache": bool(i % 2), "seed": env.subseed(seed, "c19nc", i), "world": "f32", "cost": 1})
     npts = 2000 if tier == "quick" else 100000
     for fam in ("linear", "quadratic", "cubic", "rq"):
         for ps in (0.3, 1.0, 1.5):
@@ -249,6 +256,8 @@ def run_case(case):
         return run_wide(r, case)
     if kind == "dist":
         return run_dist(r, case)
+    if kind == "naive_cond":
+        return run_naive_cond(r, case)
     try:
         if kind == "zoo":
             cfg = case["cfg"]
@@ -363,6 +372,57 @@ def run_case(case):
     return r.done()
 
 
+def run_naive_cond(r, case):
+    from nflows import transforms as T
+    D, cond, seed = case["features"], case["cond"], case["seed"]
+    g = torch.Generator().manual_seed(seed)
+    torch.manual_seed(seed)
+    m = T.NaiveLinear(D, using_cache=case["cache"])
+    with torch.no_grad():
+        q1, _ = torch.linalg.qr(torch.randn(D, D, generator=g))
+        q2, _ = torch.linalg.qr(torch.randn(D, D, generator=g))
+        sv = torch.logspace(0, -float(np.log10(cond)), D)
+        m._weight.copy_(q1 @ torch.diag(sv) @ q2.t())
+        m.bias.copy_(torch.randn(D, generator=g))
+    m.eval()
+    m64 = twin(m)
+    x = torch.randn(6, D, generator=g)
+    det = dict(features=D, cond=cond, cache=case["cache"])
+    label = "naive_linear(cond=%g)" % cond
+    for direction in ("forward", "inverse"):
+        try:
+            with torch.no_grad():
+                o64, l64 = (m64.forward if direction == "forward" else m64.inverse)(x.double())
+                o32, l32 = (m.forward if direction == "forward" else m.inverse)(x)
+        except Exception as e:
+            r.ev()
+            r.viol("raises_in_float32", "%s.%s raises in float32" % (label, direction), exc=repr(e)[:200], **det)
+            continue
+        r.ev(x.shape[0])
+        r.count("twin_items", x.shape[0])
+        r.count("conditioned_linear_items", x.shape[0])
+        if not (torch.isfinite(o32).all() and torch.isfinite(l32).all()):
+            r.viol("nonfinite_in_float32", "%s.%s returns non-finite numbers in float32" % (label, direction), **det)
+            continue
+        amp = cond if direction == "inverse" else 1.0
+        oe = float((o32.double() - o64).abs().max())
+        allowed_o = 64 * E32 * D * amp * (1 + float(x.abs().max()) + float(m.bias.abs().max()))
+        le = float((l32.double() - l64).abs().max())
+        allowed_l = 64 * E32 * D * (1 + float(l64.abs().max()) + np.log(cond))
+        r.worst("cond_out_err/allowed", oe / allowed_o)
+        r.worst("cond_lad_err/allowed", le / allowed_l)
+        if oe > allowed_o:
+            r.viol("outputs_disagree", "%s.%s float32 outputs disagree with the float64 twin beyond eps * cond" % (label, direction),
+                   err=oe, allowed=allowed_o, **det)
+        if le > allowed_l:
+            r.viol("logabsdet_disagrees", "%s.%s float32 logabsdet disagrees with the float64 twin" % (label, direction),
+                   err=le, allowed=allowed_l, **det)
+        if oe > 0:
+            r.cell(label, direction, D)
+    r.sample({"naive_cond": det})
+    return r.done()
+
+
 def run_dist(r, case):
     cfg, seed = case["cfg"], case["seed"]
     try:
@@ -376,7 +436,9 @@ def run_dist(r, case):
     det = dict(cfg=cfg)
     x, c = dzoo.dist_inputs(cfg, 24, seed + 1)
     x = (x * torch.linspace(0.3, 2.7, x.shape[0]).reshape([-1] + [1] * (x.dim() - 1))).float()     # up to ~4 sigma of N(0, 1.5)
-    c = c.float() if c is not None else None
+    c = (c * cfg.get("ctx_scale", 1.0)).float() if c is not None else None
+    if cfg["dist"] == "bernoulli":
+        x = (x > 0).float()
     if c is None and dzoo.dist_meta(cfg)["needs_ctx"]:
         return r.done()
     try:
